@@ -426,7 +426,8 @@ def _findNextZeroCrossing(
         if zeroI is None:
             return None
 
-    return startTime + zeroI / float(frameRate)
+    # The samples were read from the sample position nearest to startTime
+    return (round(startTime * frameRate) + zeroI) / float(frameRate)
 
 
 def _getNearestZero(samples: Tuple[int, ...], reverse: bool) -> Optional[int]:
